@@ -54,7 +54,7 @@ def coherent_order(universe, table):
     return None
 
 
-def check_case(ctx, ds, lname, n, schemes, dataset_obj=None, origin=None):
+def check_case(ctx, ds, lname, n, schemes, dataset_obj=None, origin=None, scheme_objs=None):
     from ..lib import mk_dataset, mk_scheme, labels_for, Back, wellformed
     labels = labels_for(lname, n)
     universe = spaces.universe_of(ds)
@@ -62,7 +62,7 @@ def check_case(ctx, ds, lname, n, schemes, dataset_obj=None, origin=None):
     back = Back(labels, universe)
     identical_complete = spaces.is_complete(ds) and len(set(ds)) == 1
     for s in schemes:
-        scheme = mk_scheme(s)
+        scheme = scheme_objs[s] if scheme_objs and s in scheme_objs else mk_scheme(s)
         table = refmodel.ref_table(universe, ds, s[0], s[1])
         W = coherent_order(universe, table)
         if identical_complete and s[0][2] > 0 and s[1][0] > 0:
@@ -138,11 +138,13 @@ def histories(ctx, ds0, lname, n, schemes):
     labels = labels_for(lname, n)
     for what, after in mutation_histories(ds0):
         for s in schemes:
+            so = mk_scheme(s)
+
             def warm(dd):
                 with chooser.Chooser([]):
-                    _lib['A']().compute_consensus_rankings(dd, mk_scheme(s), True)
+                    _lib['A']().compute_consensus_rankings(dd, so, True)
             d = prepare_mutated(ds0, labels, what, warm=warm)
-            check_case(ctx, after, lname, n, [s], dataset_obj=d, origin=[ds0, what])
+            check_case(ctx, after, lname, n, [s], dataset_obj=d, origin=[ds0, what], scheme_objs={s: so})
             ctx.count('cases_after_run_mutate_on_the_same_dataset_object')
 
 
